@@ -18,6 +18,7 @@
   All statements are for arbitrary header values (no bounds); side conditions `Valid` are stated in Props/C01NitfRaw.lean.
 -/
 import SarpyModel.Props.C01NitfWrap
+import Mathlib.Tactic.Ring
 
 namespace Sarpy.Props.C01.Nitf
 open Sarpy Sarpy.Spec Sarpy.Spec.NitfAssembly Sarpy.Props.C01Seg
@@ -303,5 +304,56 @@ theorem assemble_spec {h : ImageHeaderFields} {o : ReaderOptions} {t : Seg} (hv 
   cases hq : h.cplx with
   | none => rfl
   | some iq => cases iq <;> rfl
+
+/-- **every read of the assembled tree**: element `idx` of `read ts` (any normalised subscript: any start, stop, step of either
+    sign per axis) is the specified sample at the selected formatted index `start + idx * step` - `read_refines` composed with
+    `assemble_wf` and `assemble_spec` -/
+theorem assemble_read_spec {h : ImageHeaderFields} {o : ReaderOptions} {t : Seg} (hv : Valid h) (hok : assemble h o = .ok t)
+    (ts : List NSlice) (hts : NormalSub t.fshape ts) (idx : Idx) (hin : InR (ts.map NSlice.count) idx) :
+    (t.readSrc ts).shape = ts.map NSlice.count ∧
+    (t.readSrc ts).get idx =
+      formattedSrc h o (selIdx ts idx 0).toNat (selIdx ts idx 1).toNat (selIdx ts idx 2).toNat := by
+  have hwf := assemble_wf hok
+  have href := read_refines Src.leaf Src.fill t hwf ts hts
+  refine ⟨href.1, ?_⟩
+  have h1 := href.2 idx (by rw [href.1]; exact hin)
+  rw [show t.readSrc ts = t.read Src.leaf Src.fill ts from rfl, h1]
+  exact assemble_spec hv hok (selIdx ts idx) (selIdx_inR hts hin)
+
+/-- **file position of a sample**: the flat sample offset of band b, row iy, column ix inside a block, per IMODE - band interleaved
+    by block: ((b * NPPBV) + iy) * NPPBH + ix; by row: (iy * NBANDS + b) * NPPBH + ix; by pixel: (iy * NPPBH + ix) * NBANDS + b; band
+    sequential: iy * NPPBH + ix.  With the leaf id (the byte offset of the block in the file) this names the file byte
+    `id + flat * bytesPerSample` every formatted pixel is read from. -/
+theorem leaf_file_offset (h : ImageHeaderFields) (b iy ix : Nat) :
+    flatOff (leafShape h) (leafIdx h b iy ix) =
+      if h.nbands = 1 then ((iy * blockW h + ix : Nat) : Int) else
+      match h.imode with
+      | .B => (((b * blockH h + iy) * blockW h + ix : Nat) : Int)
+      | .R => (((iy * h.nbands + b) * blockW h + ix : Nat) : Int)
+      | .P => (((iy * blockW h + ix) * h.nbands + b : Nat) : Int)
+      | .S => ((iy * blockW h + ix : Nat) : Int) := by
+  unfold leafShape leafIdx
+  by_cases h1 : h.nbands = 1
+  · cases h.imode <;> simp [h1, getShape, flatOff, rawBandDim]
+  · cases h.imode <;> simp [h1, getShape, flatOff, rawBandDim] <;> ring
+
+/-! ### the hypotheses are satisfiable: a 2 x 2 grid with pad pixels, three bands by block, one block masked out, rows reversed and
+    axes transposed -/
+
+def exH : ImageHeaderFields :=
+  { nrows := 3, ncols := 5, nbands := 3, imode := .B, nbpr := 2, nbpc := 2, nppbh := 3, nppbv := 2, bps := 2, cplx := none,
+    mask := some ⟨26, [[36, 4294967295, 0, 72]]⟩, offset := 1000, size := 26 + 3 * 36, ilocRow := 0, ilocCol := 0 }
+def exO : ReaderOptions := { reverse := [0], transpose := true, memmap := true }
+
+theorem exH_valid : Valid exH := by
+  constructor
+  · intro hm; simp [exH] at hm
+  · intro m hm; simp [exH] at hm; subst hm; decide
+example : ∃ t, assemble exH exO = .ok t ∧ t.fshape = [5, 3, 3] ∧ (below t).fshape = [3, 3, 5] := ⟨_, rfl, by decide, by decide⟩
+-- formatted (c, r, b) = (4, 0, 2): image row 3 - 1 - 0 = 2, column 4 -> block (1, 1) = number 3 at offset 72, inside the block (band 2, row 0, col 1)
+example : formattedSrc exH exO 4 0 2 = Src.leaf (1000 + 26 + 72) [2, 0, 1] := by decide
+-- image row 0, column 4 lies in block (0, 1), which is masked out
+example : formattedSrc exH exO 4 2 1 = Src.fill := by decide
+example : flatOff (leafShape exH) (leafIdx exH 2 0 1) = 13 := by decide
 
 end Sarpy.Props.C01.Nitf
